@@ -10,6 +10,7 @@ open C10_util
 let admin = coq_of_string "ADMIN"
 
 type pop = PC of string * string | PR of string * string | PH of string | PW of string | PX | PBad
+         | PCf of string * string | PRf of string * string | PRace of string
 
 let parse_op (o : string) : pop * string list =
   match split_on ':' o with
@@ -18,6 +19,9 @@ let parse_op (o : string) : pop * string list =
   | ["H"; n] -> PH n, [n]
   | ["W"; n] | ["Wr"; n] -> PW n, [n]
   | ["X"] -> PX, []
+  | ["Cf"; c; n] -> PCf (c, n), [c; n]
+  | ["Rf"; c; n] -> PRf (c, n), [c; n]
+  | ["RACE"; n] -> PRace n, [n]
   | _ :: rest -> PBad, rest
   | [] -> PBad, []
 
@@ -56,6 +60,11 @@ let outcome_s (p : pop) (o : Tokens.outcome) =
   | PH _, Tokens.ORole r -> "h:" ^ role_s r
   | PW _, Tokens.OWs b -> if b then "w:ok" else "w:no"
   | PX, Tokens.ORestarted -> "x"
+  | PCf _, Tokens.OFailed -> "c:fail"
+  | PCf _, Tokens.ODenied -> "c:401"
+  | PRf _, Tokens.OFailed -> "r:fail"
+  | PRf _, Tokens.ODenied -> "r:401"
+  | PRace _, Tokens.ORace r -> "race:" ^ role_s r
   | _ -> "MODEL-BUG"
 
 (* the Coq operation for a parsed one; for a create also the fresh value it would bind *)
@@ -66,6 +75,9 @@ let coq_op env (p : pop) =
   | PH n -> Some (Tokens.AuthHttp (resolve env n)), None
   | PW n -> Some (Tokens.AuthWs (resolve env n)), None
   | PX -> Some Tokens.Restart, None
+  | PCf (c, n) -> let v, _ = next_value env n in Some (Tokens.CreateFail (resolve env c, v)), None
+  | PRf (c, n) -> Some (Tokens.RevokeFail (resolve env c, resolve env n)), None
+  | PRace n -> Some (Tokens.Race (resolve env n)), None
   | PBad -> None, None
 
 let model input =
@@ -111,12 +123,20 @@ let spec input obs =
              let want = outcome_s p (Tokens.spec_outcome admin !pre o) in
              if res = "c:DUP" then raise (Fail (Printf.sprintf "token-not-distinct op %d" i));
              if res = "c:SHAPE" then raise (Fail (Printf.sprintf "token-shape op %d" i));
-             if res <> want then begin
+             (* the authenticate that overlaps the revoke may answer either way *)
+             let res_ok = match p, o with
+               | PRace _, Tokens.Race t ->
+                 res = want || res = "race:" ^ role_s (Tokens.spec_role admin (!pre @ [Tokens.Revoke (admin, t)]) t)
+               | _ -> res = want in
+             if (match p with PCf _ | PRf _ -> res = "c:ok" || res = "r:ok" | _ -> false) then
+               raise (Fail (Printf.sprintf "failed-op-reported-success op %d want %s got %s" i want res));
+             if not res_ok then begin
                let cls = match p with
                  | PH _ | PW _ ->
                    let tail s = Stdlib.String.sub s 2 (Stdlib.String.length s - 2) in
                    if Stdlib.String.length res > 2 && Stdlib.String.length (tail res) <= 2 then auth_class (tail want) (tail res) else "auth-inconsistent"
-                 | PC _ | PR _ -> "admin-op-outcome"
+                 | PC _ | PR _ | PCf _ | PRf _ -> "admin-op-outcome"
+                 | PRace _ -> "race-inflight-answer"
                  | _ -> "outcome-mismatch" in
                raise (Fail (Printf.sprintf "%s op %d want %s got %s" cls i want res))
              end;
